@@ -1,5 +1,5 @@
 (* Properties_C18.v — refresh warnings follow each record's lifetime and stop with it. *)
-From QV Require Import Base Fields SrcFacts Msg SrcDecisions Cache CacheSpec CacheProofs.
+From QV Require Import Base Fields SrcFacts Msg SrcDecisions Cache CacheSpec CacheProofs CacheAccept.
 Local Open Scope Z_scope.
 
 (* the schedule written by addRecord: 50 / 85 / 90 / 95 % of the TTL plus the jitter, then the expiry;
@@ -58,3 +58,26 @@ Example C18_example :
   map (fun o => match o with OSig t (ShouldQuery _) _ => t | OSig t (Expired _) _ => - t | _ => 0 end)
       (crun (0, empty_cache) [CAdd a 19; CAdv 5000]) = [519; 869; 919; 969; -1000].
 Proof. vm_compute. reflexivity. Qed.
+
+(* ------------------------------------------------------------------ the whole property, over whole histories
+   CacheSpec.mon_cache is a timer-less reference cache written from the text of C05 / C06 / C18 with the
+   properties' own constants; it judges a history together with everything observed after each operation
+   (signals with their instants and the cache content at emission, lookup results).  For EVERY history of
+   ADD (TTL 0 .. 2 000 000 s, jitter 0..19) / ADV (exact scheduling) / ADVB (caller action ahead of a
+   simultaneously due firing) / LOOKUP operations, it accepts the run of the model of cache.cpp: every
+   warning names a record then held (code 4), is the next one of that record's 50/85/90/95 % + [0,20) ms
+   schedule counted from its last addition - at most four, in order (5) - and lies strictly before its expiry (6);
+   and no warning that has become due is missing (7) *)
+Theorem C18_every_history_is_accepted ops :
+  script_ok 0 ops -> mon_cache ops (crun_g (0, empty_cache) ops) = None.
+Proof. exact (run_accepted ops). Qed.
+Print Assumptions C18_every_history_is_accepted.
+
+Example C18_acceptor_discriminates :
+  let a := set_ttl 1 (set_addr (A4 1) (set_type 1 (set_name (Some [97; 46]%N) default_record))) in
+  let w t := OSig t (ShouldQuery a) [a] in
+  mon_cache [CAdd a 0; CAdv 999] [[]; [w 500; w 850; w 900; w 950]] = None /\
+  mon_cache [CAdd a 0; CAdv 999] [[]; [w 500; w 850; w 900]] = Some (1%N, 7%N) /\
+  mon_cache [CAdd a 0; CAdv 999] [[]; [w 500; w 870; w 900; w 950]] = Some (1%N, 5%N) /\
+  mon_cache [CAdd a 0; CAdd (set_ttl 0 a) 0; CAdv 999] [[]; [OSig 0 (Expired a) []]; [w 500]] = Some (2%N, 4%N).
+Proof. vm_compute. auto. Qed.
